@@ -95,7 +95,7 @@ fn judge_sample<F: Fl>(xs: &[f64], confs: &[(Kind, f64)], styles: &[Style], s: &
                             judge_interval("D1", kind, level, sh, &e, &|| case(st), &|| format!("{st:?}({c:?}, {xs:?} as {})", F::NAME), s);
                         }
                         Some(f) => {
-                            let close = |a: f64, b: f64| a == b || (a - b).abs() <= 4.0 * F::U * a.abs().max(b.abs()) || (a.is_nan() && b.is_nan());
+                            let close = |a: f64, b: f64| a == b || (a.is_finite() && b.is_finite() && (a - b).abs() <= 4.0 * F::U * a.abs().max(b.abs())) || (a.is_nan() && b.is_nan());
                             if f.0 != sh.0 || !close(f.1, sh.1) || !close(f.2, sh.2) {
                                 s.violation(format!("D1/call-styles-disagree/{st:?}"), format!("{xs:?} ({}) {c:?}: {:?} gives {f:?}, {st:?} gives {sh:?}", F::NAME, styles[0]), case(st));
                             }
@@ -109,7 +109,7 @@ fn judge_sample<F: Fl>(xs: &[f64], confs: &[(Kind, f64)], styles: &[Style], s: &
 
 // ---------------- D2: streaming ------------------------------------------------------
 
-const PATTERNS: [&[f64]; 5] = [&[1.0, -1.0], &[1.0, 2.0, 3.0], &[-5.0, -5.0, -2.0], &[0.1, 0.3], &[1_000_001.0, 999_999.0]];
+const PATTERNS: [&[f64]; 6] = [&[1.0, -1.0], &[1.0, 2.0, 3.0], &[-5.0, -5.0, -2.0], &[0.1, 0.3], &[1_000_001.0, 999_999.0], &[-1000.0, -1001.0, -999.5]];
 
 fn prefix_stats<F: Fl>(pat: &[f64], n: usize) -> ExactStats {
     let l = pat.len();
@@ -270,7 +270,7 @@ fn run(tier: Tier) -> Sink {
             jobs.push(Job::Stream { f32_, pts: chunk.to_vec() });
         }
     }
-    let npat = tier.pick(3, 5);
+    let npat = tier.pick(3, 6);
     // thorough D1 at full length uses the reduced style set beyond length 5 to bound cost
     let long_confs = [(Kind::Two, 0.95), (Kind::Upper, 0.9), (Kind::Lower, 0.25)];
     par_judge(&jobs, |j, s| match j {
@@ -364,7 +364,7 @@ fn main() {
     rep.rule = format!(
         "D1: every sequence of length 2..{} over {:?} (length 2..3 also scaled by 2^e, e in {{-300,-60,-30,40,300}} for f64 and {{-40,-20,20,40}} for f32) and of length 2..{} over {:?} x {} confidences x f64,f32 x call styles {:?}; D2: {} streaming patterns fed one value at a time, queried at {} sample sizes ({}) x confidences x f64,f32, plus the cross-pattern invariance of half-width/se; D3: all six one-shot / chunked entry points on materialised vectors of 1e3, 3e4 and 2.5e5 values of each pattern; distinct by (type, kind, constant?, result bits) and (type, pattern, kind, dof decade)",
         tier.pick(4, 6), A_DYADIC, tier.pick(3, 4), A_NONDYADIC, vcheck::confs(tier).len(), match tier { Tier::Quick => &STYLES_QUICK[..], Tier::Thorough => &STYLES_ALL[..] },
-        tier.pick(3, 5), query_points(tier).len(), tier.pick("every n in 2..3000 and 99000..101000, powers of two, 200001", "every n in 2..101000, 131072, 200001")
+        tier.pick(3, 6), query_points(tier).len(), tier.pick("every n in 2..3000 and 99000..101000, powers of two, 200001", "every n in 2..101000, 131072, 200001")
     );
     rep.assume("tolerance in probability = dof-tier floor (bounded below by statrs' own quantile accuracy; maxima per dof decade are reported) + 0.3*16u*cond(variance) + 0.4*(8u*sum|x|/n + 2u|bound|)/se; cases whose data-dependent part exceeds 0.2*min(p,1-p) are counted as outside the conditioning domain");
     rep.assume("data values outside the alphabets/patterns and levels outside the grid are not covered");
